@@ -12,7 +12,7 @@ PROPS = ['Props/C07.v', 'Findings/C07.v']
 GEN = [('Gen/C07Codec.v', codecs.generate)]
 TRUSTED = [
     'py2coq translator (tools/py2coq/core.py, convvalidate.py, codecs.py): round_microseconds_to_precision, timedelta2str, datetime2timestamp, timestamp2datetime are re-translated from /repo on '
-    'every run; SQLite Time/Date/Datetime converter py2sql/sql2py by shape-checked templates; str2timedelta, SQLiteDecimalConverter, SQLiteTimedeltaConverter, the *.validate rounding calls and '
+    'every run; SQLite Time/Date/Datetime converter py2sql/sql2py and the keep-as-is condition of JsonConverter.validate / ArrayConverter.validate by shape-checked templates; str2timedelta, SQLiteDecimalConverter, SQLiteTimedeltaConverter, the *.validate rounding calls and '
     'UuidConverter.py2sql are hand-modelled against a pinned source text (a changed source refuses the run)',
     'reference models of CPython library functions (Model/C07Base.v, C07Fmt.v): %d/%02d/%04d/%06d formatting, int() on ASCII digit strings, str.split, time/datetime.isoformat, '
     'date.strftime("%Y-%m-%d") (glibc: year not zero-padded), strptime on the fixed-width forms the encoders produce, the timedelta constructor normalisation, Decimal.quantize(ROUND_HALF_EVEN), '
@@ -236,6 +236,16 @@ def correspondence(ctx):
             if conv[name].sql2py(conv[name].py2sql(v)) != v:
                 disagreements.append({'what': '%s converter: sql2py(py2sql(v)) != v' % name, 'input': repr(v)})
             dist['identity_converters'] = dist.get('identity_converters', 0) + 1
+
+    # 14: JsonConverter.validate / ArrayConverter.validate on plain values and on values tracked by this / another object / another attribute
+    def ctv(w):
+        return '(TPlain 0)' if w is None else '(TTracked %d %d 0)' % w
+    for kind, label, obj, attr, vw, kept, rw in impl.tracked_validate_cases():
+        fn = 'chk_json_validate' if kind == 'json' else 'chk_array_validate'
+        if rw is None:
+            disagreements.append({'what': '%s converter validate returned an untracked value for a bound attribute' % kind, 'input': label}); continue
+        add('tracked_validate', '%s %d %d %s %s %d %d' % (fn, obj, attr, ctv(vw), cbool(kept), rw[0], rw[1]), [kind, label, vw], [kept, rw])
+        nontrivial.add(('tracked', kind, label))
 
     bad, flags_model = run_bools(ctx, exprs)
     for i in bad[:20]:
@@ -461,13 +471,40 @@ def search(ctx, deep):
             if by_key[r[0]] == 1: failures.append(Failure(r[0], r[1], {'codec': kind, 'v': v}))
         else:
             nontriv.add((kind, tuple(v)))
+    # histories: a tracked Json / array value of one object assigned to another (whole value, nested part, other attribute, on creation),
+    # then edited in place after the flush: what the program sees after the flush must be what a fresh session reads
+    n_hist = 0
+    for kind in impl.HISTORIES:
+        n_hist += 1
+        f = history_failure(ctx, kind)
+        if f is not None:
+            by_key[f.key] = by_key.get(f.key, 0) + 1
+            if by_key[f.key] == 1: failures.append(f)
+        else: nontriv.add(('history', kind))
+    n_codec += n_hist
     return Search(evaluations=len(items) + n_codec, failures=failures, nontrivial=len(nontriv), exhaustive=False,
                   distribution={'values_per_attribute': per_attr, 'codec_round_trips': n_codec, 'failing_inputs_by_key': by_key},
                   samples=[{'attr': 'td3 = Optional(timedelta, 3)', 'written': 'timedelta(seconds=1, microseconds=999999)', 'after_flush': 'timedelta(seconds=1, microseconds=999000)',
                             'new_session': 'timedelta(seconds=1, microseconds=999000)'}])
 
 
+def history_failure(ctx, kind):
+    path = os.path.join(ctx.mkscratch(), 'c07-hist.sqlite')
+    try:
+        rows = impl.run_history(path, kind)
+    except Exception as e:
+        return Failure('unlisted:tracked-history:%s:raises-%s' % (kind, type(e).__name__), 'history %s raised %s: %s' % (kind, type(e).__name__, str(e)[:200]), {'history': kind})
+    for label, seen, got in rows:
+        if seen != got:
+            return Failure('unlisted:tracked-history:%s:%s' % (kind, label.split('.')[1]),
+                           'history `%s` (a tracked value of object a assigned to another object, then edited in place after flush): %s seen after flush = %r, a fresh session reads %r' % (kind, label, seen, got),
+                           {'history': kind})
+    return None
+
+
 def replay(ctx, data):
+    if 'history' in data:
+        return history_failure(ctx, data['history'])
     if 'codec' in data:
         r = codec_oracle(data['codec'], data['v'])
         return Failure(r[0], r[1], data) if r else None
